@@ -1,6 +1,7 @@
 package main
 
 import (
+	"go/constant"
 	"fmt"
 	"go/token"
 	"go/types"
@@ -169,7 +170,34 @@ func runC10(c *Ctx) {
 	all := append(append([]types.Type{}, top...), specific...)
 
 	// ---------- R1 (a) requestMethod ----------
-	{
+	// by evaluation when requestMethod can be run on a value of each request type (a type switch, a method of the
+	// packet types, a table keyed by something the packet reports); otherwise by simulating its type switch
+	evalMethod := func(t types.Type) (string, bool) {
+		arg := evVal{k: evIface, t: t, inner: &evVal{k: evObject, obj: &evObj{typ: derefType(t), fields: map[string]evVal{}}}}
+		st := newEvaluator(p).run(rm, []evVal{arg}, 0)
+		if st.kind == "return" && len(st.vals) == 1 && st.vals[0].k == evConst && st.vals[0].c.Kind() == constant.String {
+			return constant.StringVal(st.vals[0].c), true
+		}
+		return "", false
+	}
+	evaluated := len(all) > 0
+	for _, t := range all {
+		if _, ok := evalMethod(t); !ok {
+			evaluated = false
+		}
+	}
+	if evaluated {
+		for _, t := range all {
+			tn := typeName(t)
+			want, known := methodOracle[tn]
+			if !known {
+				c.und("R1", "method of "+tn, "?", "request type not in the oracle")
+				continue
+			}
+			got, _ := evalMethod(t)
+			c.check(got == want, "R1", "requestMethod("+tn+")", p.Pos(rm.Pos()), fmt.Sprintf("%q", got), fmt.Sprintf("requestMethod maps %s to %q, the documented method is %q", tn, got, want))
+		}
+	} else {
 		var sw ssa.Value
 		eachInstr(rm, func(in ssa.Instruction) {
 			if ta, ok := in.(*ssa.TypeAssert); ok && ta.CommaOk && sw == nil {
